@@ -905,6 +905,13 @@ class NPProxy:
     def isscalar(self, x):
         return isinstance(x, S) or _np.isscalar(x)
 
+    def result_type(self, *args):
+        # promotion is decided on the nominal dtypes (the arrays themselves are object arrays)
+        return _np.result_type(*[a.nd if isinstance(a, sc.FakeDType) else nominal_dummy(a) for a in args])
+
+    def promote_types(self, a, b):
+        return _np.promote_types(a.nd if isinstance(a, sc.FakeDType) else a, b.nd if isinstance(b, sc.FakeDType) else b)
+
     def where(self, cond, x=None, y=None):
         # 0-d operands are bare scalars, so NumPy would not dispatch to SymArray by itself
         if x is not None and (_contains_sym(x) or _contains_sym(y)):
